@@ -16,6 +16,22 @@ Proof. exact handle_never_panics. Qed.
 Theorem C08_grpc_never_panics : forall has_txs f s, grpc_stream_txs true true has_txs f <> GPanic s.
 Proof. exact grpc_never_panics. Qed.
 
+(* gRPC StreamTransactions: for EVERY start_slot and EVERY end_slot (absent, before the start, 2^64-1) the slice
+   of candidate epochs is sized without panicking (any number of loaded epochs up to 2^32) *)
+Theorem C08_grpc_slot_range_never_panics : forall loaded start e, (loaded <= 4294967296)%N ->
+  forall s, grpc_stream_range true loaded start e <> GPanic s.
+Proof. exact grpc_range_never_panics. Qed.
+
+(* ... and the whole call returns: with the candidate epochs sized by what is loaded and the buffered
+   transactions flushed by the slots that hold them, every (start_slot, end_slot) streams *)
+Theorem C08_grpc_window_always_returns : forall loaded held indexed start e, (loaded <= 4294967296)%N -> (held <= spin_budget)%N ->
+  grpc_stream_window true true loaded held indexed start e = GStreams.
+Proof. exact grpc_window_always_returns. Qed.
+
+(* REST front: every request to /api/v1/ gets a status code *)
+Theorem C08_api_never_panics : forall r s, api_handle true r <> ApiPanic s.
+Proof. exact api_never_panics. Qed.
+
 (* the guards are necessary (pinned behaviour refuted by witnesses) *)
 Theorem C08_missing_params_refuted :
   handle false true MGetBlock PMissing = RPanic 1 /\ handle false true MGetTransaction PMissing = RPanic 2 /\
@@ -28,6 +44,16 @@ Theorem C08_malformed_account_refuted :
   grpc_stream_txs true false true (Some {| g_vote := Some true; g_failed := Some true; g_accounts_wellformed := false |}) = GPanic 12.
 Proof. exact grpc_malformed_account_panics_when_unchecked. Qed.
 
+Theorem C08_slot_range_refuted :
+  grpc_stream_range false 1 (432000 * 5) (Some 0%N) = GPanic 13 /\
+  grpc_stream_range false 1 0 (Some 18446744073709551615%N) = GPanic 13 /\
+  grpc_stream_range false 1 18446744073709551615 None = GPanic 13.
+Proof. exact (conj grpc_range_end_before_start_panics_when_unbounded (conj grpc_range_far_end_panics_when_unbounded grpc_range_default_end_wraps_when_unbounded)). Qed.
+Theorem C08_flush_walk_refuted : grpc_stream_window true false 1 0 true 0 (Some 36028797018963968%N) = GSpins.
+Proof. exact grpc_window_spins_when_walking_every_slot. Qed.
+Theorem C08_api_unguarded_search_refuted : api_handle false (ApiSig true 0 false) = ApiPanic 14.
+Proof. exact api_unguarded_search_panics. Qed.
+
 (* non-vacuity: a well-formed getBlock request proceeds, an ill-typed option is rejected *)
 Example C08_nonvacuous :
   handle true true MGetBlock (PRaw (Some [JNum 5; JObj [(k_encoding, JStr (SEncoding true)); (k_rewards, JBool false)]])) = RProceeds /\
@@ -36,6 +62,12 @@ Proof. split; reflexivity. Qed.
 
 Print Assumptions C08_http_never_panics.
 Print Assumptions C08_grpc_never_panics.
+Print Assumptions C08_grpc_slot_range_never_panics.
+Print Assumptions C08_grpc_window_always_returns.
+Print Assumptions C08_flush_walk_refuted.
+Print Assumptions C08_api_never_panics.
+Print Assumptions C08_slot_range_refuted.
+Print Assumptions C08_api_unguarded_search_refuted.
 Print Assumptions C08_missing_params_refuted.
 Print Assumptions C08_absent_flag_refuted.
 Print Assumptions C08_malformed_account_refuted.
